@@ -408,6 +408,16 @@ def kindOf (handler : List Char) : RouteKind :=
 def builtinRoutes : List Route :=
   Gen.routes.map fun r => { method := r.method, pattern := r.pattern, kind := kindOf r.handler, bypass := r.bypassAuth, forward := r.forward }
 
+/-- `Handler.AddRoute` (prefix BasePath) / `AddPreviewRoute` (prefix BasePreviewPath): a pattern that is not empty
+and does not begin with '/' is refused (`len(r.Pattern) > 0 && r.Pattern[0] != '/'`), otherwise the route is
+registered under `prefix + pattern`. -/
+def addRoutePattern (pre pat : Path) : Option Path :=
+  if pat ≠ [] ∧ pat.head? ≠ some '/' then none else some (pre ++ pat)
+
+/-- The pattern is one `AddRoute` or `AddPreviewRoute` can have registered. -/
+def viaAddRoute (pattern : Path) : Bool :=
+  [base, preview].any fun pre => pre.isPrefixOf pattern && (addRoutePattern pre (pattern.drop pre.length)).isSome
+
 structure Req where
   method : List Char
   path : Path
